@@ -39,3 +39,5 @@ def run(ctx):
     lib_kind.dict_atomic(ctx, P)
     lib_kind.length_guard(ctx, P, lambda k, f: f.startswith("write_") or f.startswith("parse_") or f.startswith("TableCollection_"), tus=["module"])
     lib_mem.c_lints(ctx, ctx.program(), scopes.lib_scope("C05"))
+    from . import lib_kind5
+    lib_kind5.lwt_omit_default(ctx, ctx.program())
